@@ -157,6 +157,23 @@ def check_axang(t, c, cls, thin=False):
                         lim = 1e-9 + 4e-16 / math.sin(theta)
                         if not (maxdiff(ax, axis) <= 1e3 * lim and abs(an - theta) <= lim):
                             t.fail("C10|%s|axis-angle-differs|%s" % (name, cls), dict(case, got_axis=ax, got_angle=an, axis=axis))
+    # one object, every read-only conversion called twice: same answers, object unchanged
+    if 0 < theta < math.pi:
+        obj = Quaternion(wq.copy())
+        was = np.array(obj, dtype=float)
+        first = {}
+        for rnd in (0, 1):
+            for name in ("to_axang", "to_angles", "to_DCM", "logarithm", "to_array"):
+                t.calls += 1
+                m_ = getattr(obj, name)
+                val = m_() if callable(m_) else m_
+                flat = np.concatenate([np.atleast_1d(np.asarray(x, dtype=float)).ravel() for x in (val if isinstance(val, tuple) else (val,))])
+                if rnd == 0:
+                    first[name] = flat
+                elif not np.array_equal(flat, first[name], equal_nan=True):
+                    t.fail("C10|Quaternion.%s|second-call-on-the-same-object-differs|%s" % (name, cls), dict(case, first=first[name], second=flat))
+        if not np.array_equal(np.asarray(obj, dtype=float), was):
+            t.fail("C10|Quaternion|object-changed-by-read-only-conversions|%s" % cls, dict(case, now=np.asarray(obj), was=was))
     # logarithm / exponential (half-angle = atan2(b, a))
     if 0 < theta < math.pi:
         half = math.atan2(h[1], h[0])
